@@ -12,6 +12,9 @@ CHECKS = {
  "C03": ("two-run re-parse relation monitor with mechanism diagnosis (locate innermost non-fixed-point node)",
          "r2 = T(T(x)) must equal r1 = T(x) (type- and NaN-aware) for generated types incl. unions and data classes; lax outputs on exact domains must satisfy the strict form.",
          "Trusted: values.approx_eq, constraints_ref. Nine mechanism-keyed known findings (lax carry/drift/order, union/xor/and re-resolution) are listed; anything else is a violation.", "§4 C03"),
+ "C05": ("model-vs-implementation monitor: a reference model of the documented field contract predicts the key view, the attribute view or the set of failure kinds; every lookup strategy of the real parser must agree",
+         "Over declarations spanning the Field parameter space and class Options, and inputs over names/aliases/case variants/unknown keys: which value lands under which name in which view, which absences / exceeding keys / dependency gaps / parameter counts are errors, defaults copied fresh, deferred defaults on attribute access.",
+         "Trusted: vmon/oracles/field_model.py (written from docs/en/references/field.md + options.md; says 'skip' where they are silent; skips are counted in the evidence). Leaf conversions are taken from the library. Three defects found and repaired in /repo.", "§4 C05"),
  "C06": ("strategy-differential monitor: each generated (declaration, input, options) parsed with data_first_search on and off (runtime and class Options routes), fail-fast and with collect_errors",
          "Both strategies must accept with equal key and attribute views, or fail with the same kind ((kind,item) multisets under collect_errors), over declarations spanning the Field parameter space and inputs with aliases, case variants, duplicate spellings, unknown keys, absent fields and invalid values.",
          "Relation between two runs of the library (no reference model). Four divergences repaired in /repo; three mechanism-keyed known findings remain (recognised by the parser's own field facts + outcome shape).", "§4 C06"),
